@@ -164,6 +164,9 @@ def cd_readonly(prog: Program) -> RuleResult:
     cd = prog.cls(CD)
     summ = write_summary(prog, cd)
     container_fields = [n for n, fi in prog.fields(cd.qual).items() if not fi.is_initvar]
+    # what the diagram keeps between calls: its fields and whatever its memoised properties / methods computed (a cached_property value
+    # lives in the instance dict: handing it out, or an element of it, hands out the diagram's own object)
+    stored_names = set(container_fields) | {n for n, g in cd.methods.items() if g.is_cached_property or g.is_lru_cache}
     for name, f in sorted(cd.methods.items()):
         if name in CONSTRUCTIVE or name in ("__hash__", "__eq__"):
             continue
@@ -176,10 +179,11 @@ def cd_readonly(prog: Program) -> RuleResult:
         selfname = f.params[0] if f.params else "self"
         copies: Dict[str, Set[str]] = {}  # local -> fields already replaced by fresh objects
         aliases: Dict[str, str] = {}  # local -> field of self it aliases
+        deep: Set[str] = set()  # locals that are (elements of) stored state: dataclass fields and memoised values
         bad = None
         for s in _ordered_stmts(f.node):
-            if isinstance(s, ast.Assign) and len(s.targets) == 1:
-                t, v = s.targets[0], s.value
+            if (isinstance(s, ast.Assign) and len(s.targets) == 1) or (isinstance(s, ast.AnnAssign) and s.value is not None):
+                t, v = (s.targets[0] if isinstance(s, ast.Assign) else s.target), s.value
                 if isinstance(t, ast.Name) and isinstance(v, ast.Call) and call_name(v) == "copy" and v.args and src(v.args[0]) == selfname and isinstance(v.func, (ast.Name, ast.Attribute)) and not (isinstance(v.func, ast.Attribute) and src(v.func.value) == selfname):
                     copies[t.id] = set()
                     continue
@@ -192,6 +196,22 @@ def cd_readonly(prog: Program) -> RuleResult:
                         aliases[t.id] = v.attr
                     elif v.value.id == selfname:
                         aliases[t.id] = v.attr
+                        if v.attr in stored_names:
+                            deep.add(t.id)
+                # an element taken out of stored state (a field or a memoised value) is that state's own object
+                if isinstance(t, ast.Name):
+                    root = None
+                    if isinstance(v, ast.Call) and isinstance(v.func, ast.Attribute) and v.func.attr in ("get", "setdefault", "__getitem__", "pop") and isinstance(v.func.value, ast.Name) and v.func.value.id in deep:
+                        root = v.func.value.id
+                    if isinstance(v, ast.Subscript) and isinstance(v.value, ast.Name) and v.value.id in deep:
+                        root = v.value.id
+                    if isinstance(v, ast.Call) and isinstance(v.func, ast.Attribute) and v.func.attr in ("get", "setdefault") and isinstance(v.func.value, ast.Attribute) \
+                            and isinstance(v.func.value.value, ast.Name) and v.func.value.value.id == selfname and v.func.value.attr in stored_names:
+                        aliases[t.id] = v.func.value.attr + "[...]"
+                        deep.add(t.id)
+                    if root is not None:
+                        aliases[t.id] = aliases.get(root, root) + "[...]"
+                        deep.add(t.id)
             for c in [x for x in ast.walk(s) if isinstance(x, ast.Call) and isinstance(x.func, ast.Attribute)]:
                 recv = c.func.value
                 m = c.func.attr
@@ -200,7 +220,7 @@ def cd_readonly(prog: Program) -> RuleResult:
                     if shared:
                         bad = bad or (c, f"{recv.id} is a shallow copy of self; {recv.id}.{m}() mutates {sorted(shared)}, which is still the original's object")
                 if isinstance(recv, ast.Name) and recv.id in aliases and (m in MUT_ADD or m in MUT_DEL):
-                    bad = bad or (c, f"{recv.id} aliases self.{aliases[recv.id]}; {m}() mutates the original diagram")
+                    bad = bad or (c, f"{recv.id} aliases self.{aliases[recv.id]}; {m}() mutates the original diagram" + (" (memoised: every later reader sees the change)" if recv.id in deep else ""))
                 if isinstance(recv, ast.Attribute) and isinstance(recv.value, ast.Name) and recv.value.id in copies and recv.attr not in copies[recv.value.id] and (m in MUT_ADD or m in MUT_DEL):
                     bad = bad or (c, f"{src(recv)} is shared with the original; {m}() mutates it")
         r.check(bad is None, key + "#no-shared-write", site(f, bad[0]) if bad else site(f), src(bad[0]) if bad else "",
